@@ -95,6 +95,10 @@ type Scope struct {
 
 	// clockSrc stores the source of time. Defaults to system clock.
 	clockSrc digclock.Clock
+
+	// Number of decorators currently being built anywhere in the tree.
+	// Maintained on the root Scope only.
+	decoratorsOnStack int
 }
 
 func newScope() *Scope {
